@@ -189,6 +189,9 @@ class Judge:
                 if not again:
                     raise vlib.Inconclusive("finding did not reproduce: %s" % row)
                 st = hist[row["step"]]
+                # kept also when the finding is a registered known one (report() saves nothing then)
+                ctx.save_replay({"history": hist, "T": T, "signature": SIG_BACKWARDS, "steps": compact(hist)},
+                                name="finding-backwards-at-rollover.json")
                 ctx.report(SIG_BACKWARDS,
                            "non-preset writer: Commit(end=%d) after a commit at a later end is accepted when the commit "
                            "switches files (validateCommitRange skips the previous-commit test); the committed range "
@@ -271,6 +274,8 @@ def directed_inverted(ctx, judge):
         if row["r"] == "mismatch" and row["step"] == 1 and row["clause"] == "class":
             if not row["act"].startswith("res=ok"):
                 continue  # rejected (any error class): the writer failed to open, as the property asks
+            ctx.save_replay({"history": hist, "T": T, "signature": SIG_INVERTED, "steps": compact(hist)},
+                            name="finding-inverted-preset-end.json")
             ctx.report(SIG_INVERTED,
                        "OpenWriter{Start: 2, End: 1} on a DB holding [2,4) succeeds: domain.WriterConfig.Validate builds "
                        "its validator but returns nil, and OverlapsWith of the inverted range [2,1) misses [2,4)",
